@@ -41,9 +41,10 @@ def trailing (ws rest : Str) : Option Nat :=
     idxs.getLast?
 
 /-- try to match one directive at the beginning of `s` (where `^` holds). Returns the piece and the remaining text. -/
-def matchAt (s : Str) : Option (Piece × Str) :=
+def matchAt (s : Str) : Option (Piece × Str × Bool) :=
   let (_, s1) := takeWhile Py.isSpace s
-  let withSym (lit : String) (mk : Str → Piece) : Option (Piece × Str) :=
+  let nlEnd (ws : Str) (n : Nat) : Bool := n > 0 && ws.getD (n - 1) 0 == 10
+  let withSym (lit : String) (mk : Str → Piece) : Option (Piece × Str × Bool) :=
     match stripPrefix (Str.ofString lit) s1 with
     | none => none
     | some s2 =>
@@ -55,17 +56,17 @@ def matchAt (s : Str) : Option (Piece × Str) :=
             let (sym, s4) := takeWhile isSymChar s3
             let (ws2, s5) := takeWhile Py.isSpace s4
             match trailing ws2 s5 with
-            | some n => some (mk sym, ws2.drop n ++ s5)
+            | some n => some (mk sym, ws2.drop n ++ s5, nlEnd ws2 n)
             | none => none
           else none
         | [] => none
-  let bare (lit : String) (p : Piece) : Option (Piece × Str) :=
+  let bare (lit : String) (p : Piece) : Option (Piece × Str × Bool) :=
     match stripPrefix (Str.ofString lit) s1 with
     | none => none
     | some s2 =>
       let (ws2, s5) := takeWhile Py.isSpace s2
       match trailing ws2 s5 with
-      | some n => some (p, ws2.drop n ++ s5)
+      | some n => some (p, ws2.drop n ++ s5, nlEnd ws2 n)
       | none => none
   (withSym "#ifdef" Piece.ifdef).orElse fun _ =>
   (withSym "#ifndef" Piece.ifndef).orElse fun _ =>
@@ -78,10 +79,9 @@ def scanGo : Nat → Str → Bool → Str → List Piece
   | _ + 1, [], _, cur => [.text cur.reverse]
   | fuel + 1, c :: cs, atLineStart, cur =>
     match (if atLineStart then matchAt (c :: cs) else none) with
-    | some (p, rest) =>
-      -- the character before `rest` decides whether `^` holds there: a match always ends at end of text or before '\n',
-      -- so `^` does not hold at `rest` unless it is empty
-      .text cur.reverse :: p :: scanGo fuel rest false []
+    | some (p, rest, afterNl) =>
+      -- `^` holds at `rest` iff the match consumed a newline as its last character
+      .text cur.reverse :: p :: scanGo fuel rest afterNl []
     | none => scanGo fuel cs (c == 10) (c :: cur)
 
 def scan (s : Str) : List Piece := scanGo (s.length + 1) s true []
